@@ -1,2 +1,275 @@
-def check_star_at_one(prog, rep, rule):
-    pass
+"""C08 (and the clauses C01-D2, C02-D3, C07-D1 share it): semiring laws decided on the abstract carrier by
+interpreting the ASTs of the semiring methods of fggs/semirings.py."""
+from __future__ import annotations
+import ast, itertools
+from typing import Any, Dict, List, Optional, Tuple
+from .domain import AV, NUM_CLASSES, SINGLETONS, const, NONE
+from .interp import Interp, Unsupported, Opaque, as_av, PTResult
+from ..model import Program, ClassInfo, FuncInfo, AnalysisError, own_nodes, norm
+from ..report import Report
+from ..util import callee_last
+
+SR = 'fggs.semirings'
+CARRIER = {
+    'RealSemiring': ['Z', 'P0_1', 'ONE', 'GT1', 'PINF'],
+    'LogSemiring': ['NINF', 'LT_M1', 'M1', 'M1_0', 'Z', 'P0_1', 'ONE', 'GT1', 'PINF'],
+    'ViterbiSemiring': ['NINF', 'LT_M1', 'M1', 'M1_0', 'Z', 'P0_1', 'ONE', 'GT1', 'PINF'],
+    'BoolSemiring': ['F', 'T'],
+}
+SUM_FAMILY = {'add': {'sum'}, 'logaddexp': {'logsumexp'}, 'maximum': {'max', 'amax'}, 'logical_or': {'any'}}
+
+
+class Sem:
+    def __init__(self, prog: Program, ci: ClassInfo):
+        self.prog, self.ci = prog, ci
+        self.name = ci.name
+        self.carrier = CARRIER[ci.name]
+        self.cache: Dict[Tuple, AV] = {}
+
+    def method(self, name: str) -> FuncInfo:
+        f = self.prog.find_method(self.ci, name)
+        if f is None:
+            raise AnalysisError(f"{self.name}.{name} not found")
+        return f
+
+    def call(self, name: str, *args: AV) -> AV:
+        key = (name,) + tuple((a.cls, a.mode) for a in args)
+        if key in self.cache:
+            return self.cache[key]
+        f = self.method(name)
+        it = Interp(self.prog, f)
+        pos = f.positional_params()
+        env: Dict[str, Any] = {}
+        if not f.is_static and pos:
+            env[pos[0]] = Opaque('semiring'); pos = pos[1:]
+        for p, a in zip(pos, args):
+            env[p] = a
+        ret, final = it.run(env)
+        if ret is None and name.endswith('_'):
+            ret = final.get(pos[0])      # in-place: the updated first argument
+        if not isinstance(ret, AV):
+            raise Unsupported(f.node, f"{self.name}.{name} returned {ret!r}")
+        self.cache[key] = ret
+        return ret
+
+    def cls(self, c: str) -> AV:
+        return AV([c], 'tensor')
+
+    def elem(self, n: int) -> AV:
+        return self.call('from_int', const(n, 'tensor'))
+
+
+def _eq(a: AV, b: AV) -> bool:
+    """Agreement of two abstract results: equal when both are single points, otherwise they must intersect."""
+    if a.is_singleton() and b.is_singleton():
+        return a.cls == b.cls
+    return bool(a.cls & b.cls)
+
+
+def semirings(prog: Program) -> List[Sem]:
+    base = prog.cls(SR, 'Semiring')
+    out = []
+    for c in prog.subclasses(base, strict=True):
+        if c.name not in CARRIER:
+            raise AnalysisError(f"semiring subclass {c.name} has no carrier description in the checker; add it to CARRIER")
+        out.append(Sem(prog, c))
+    if len(out) < 4:
+        raise AnalysisError(f"expected the four semirings, found {[s.name for s in out]}")
+    return out
+
+
+def run_laws(prog: Program, rep: Report, thorough: bool = False) -> None:
+    n_instances = 0
+    for S in semirings(prog):
+        where = f"{SR}:{S.name}"
+        loc = f"{S.ci.module.relpath}:{S.ci.node.lineno}"
+        try:
+            zero, one, two = S.elem(0), S.elem(1), S.elem(2)
+        except Unsupported as u:
+            rep.error(f"C08: {where}.from_int: {u}")
+            continue
+
+        def ob(rule: str, construct: str, ok: bool, detail: str):
+            nonlocal n_instances
+            n_instances += 1
+            rep.ob(rule, where, construct, loc, ok, detail)
+        # L1
+        ob('C08-L1 from_int', 'from_int(0), from_int(1) are single elements', zero.is_singleton() and one.is_singleton(), f"from_int(0)={zero}, from_int(1)={one}")
+        if not (zero.is_singleton() and one.is_singleton()):
+            continue
+        Z, O = next(iter(zero.cls)), next(iter(one.cls))
+        top = 'T' if S.name == 'BoolSemiring' else 'PINF'
+        try:
+            ob('C08-L1 from_int', 'from_int(2) = add(one, one)', _eq(two, S.call('add', one, one)), f"from_int(2)={two}, add(one,one)={S.call('add', one, one)}")
+            idem = S.call('add', one, one).cls == one.cls
+            for c in S.carrier:
+                x = S.cls(c)
+                # L2 / L3 / L4
+                for a, b, side in ((zero, x, 'zero+x'), (x, zero, 'x+zero')):
+                    r = S.call('add', a, b)
+                    ob('C08-L2 add-identity', f"add {side} at x in {c}", r.cls == {c}, f"add({a},{b}) = {r}, expected {{{c}}}")
+                for a, b, side in ((one, x, 'one*x'), (x, one, 'x*one')):
+                    r = S.call('mul', a, b)
+                    ob('C08-L3 mul-identity', f"mul {side} at x in {c}", r.cls == {c}, f"mul({a},{b}) = {r}, expected {{{c}}}")
+                for a, b, side in ((zero, x, 'zero*x'), (x, zero, 'x*zero')):
+                    r = S.call('mul', a, b)
+                    ob('C08-L4 annihilation', f"mul {side} at x in {c}", r.cls == {Z}, f"mul({a},{b}) = {r}, expected {{{Z}}} (0 x inf = 0)")
+            # L5
+            for a, b in itertools.combinations_with_replacement(S.carrier, 2):
+                for op in ('add', 'mul'):
+                    l, r = S.call(op, S.cls(a), S.cls(b)), S.call(op, S.cls(b), S.cls(a))
+                    ob('C08-L5 commutativity', f"{op}({a},{b}) = {op}({b},{a})", l.cls == r.cls, f"{l} vs {r}")
+            triples = list(itertools.product(S.carrier, repeat=3))
+            for a, b, c in triples:
+                A, B, C = S.cls(a), S.cls(b), S.cls(c)
+                for op in ('add', 'mul'):
+                    l = S.call(op, S.call(op, A, B), C); r = S.call(op, A, S.call(op, B, C))
+                    special = all(x in SINGLETONS for x in (a, b, c))
+                    ob('C08-L5 associativity', f"{op}: ({a},{b}),{c}", _eq(l, r), f"({a}{op}{b}){op}{c} = {l}; {a}{op}({b}{op}{c}) = {r}")
+                l = S.call('mul', A, S.call('add', B, C)); r = S.call('add', S.call('mul', A, B), S.call('mul', A, C))
+                ob('C08-L5 distributivity', f"{a}*({b}+{c})", _eq(l, r), f"a*(b+c) = {l}; a*b+a*c = {r}")
+            # L6 star
+            sz = S.call('star', zero)
+            ob('C08-L6 star', 'star(zero) = one', sz.cls == {O}, f"star({zero}) = {sz}")
+            st = S.call('star', S.cls(top))
+            ob('C08-L6 star', 'star(top) = top', st.cls == {top}, f"star({{{top}}}) = {st}")
+            so = S.call('star', one)
+            want = O if idem else top
+            ob('C08-L6 star', f"star(one) = {'one (idempotent semiring: add(one,one)=one)' if idem else 'top (1+1+... diverges)'}", so.cls == {want},
+               f"star({one}) = {so}, expected {{{want}}}; least solution of y = 1 + 1*y")
+            for c in S.carrier:
+                r = S.call('star', S.cls(c))
+                # star(x) >= one : add(star(x), one) == star(x) classwise (one is absorbed)
+                ob('C08-L6 star', f"star(x) >= one at x in {c}", 'NAN' not in r.cls and not (r.cls & below_one(S, O)),
+                   f"star({{{c}}}) = {r}")
+            # L7 sub
+            for c in S.carrier:
+                x = S.cls(c)
+                r = S.call('add', S.call('sub', x, zero), zero)
+                ob('C08-L7 sub', f"(x - zero) + zero = x at x in {c}", r.cls == {c}, f"= {r}")
+                r = S.call('add', S.call('sub', S.cls(top), x), x)
+                ob('C08-L7 sub', f"(top - y) + y = top at y in {c}", r.cls == {top}, f"= {r}")
+                if c in SINGLETONS:
+                    r = S.call('add', S.call('sub', x, x), x)
+                    ob('C08-L7 sub', f"(x - x) + x = x at x = {c}", r.cls == {c}, f"= {r}")
+            # L8 add_ and sum
+            for a, b in itertools.product(S.carrier, repeat=2):
+                l = S.call('add', S.cls(a), S.cls(b)); r = S.call('add_', S.cls(a), S.cls(b))
+                ob('C08-L8 add_ agrees with add', f"add_({a},{b})", l.cls == r.cls, f"add = {l}, add_ = {r}")
+            fam = sum_family(S)
+            ob('C08-L8 sum family', f"sum belongs to the family of add", fam[0], fam[1])
+        except Unsupported as u:
+            rep.error(f"C08: {where}: {u}")
+    rep.analysed['law_instances'] = n_instances
+    rep.floor('C08 law instances', n_instances, 3000)
+
+
+def below_one(S: Sem, O: str) -> set:
+    if S.name == 'RealSemiring': return {'Z', 'P0_1', 'NINF', 'LT_M1', 'M1', 'M1_0'}
+    if S.name in ('LogSemiring', 'ViterbiSemiring'): return {'NINF', 'LT_M1', 'M1', 'M1_0'}
+    return {'F'}
+
+
+def add_primitive(S: Sem) -> Optional[str]:
+    f = S.method('add')
+    for n in own_nodes(f.node):
+        if isinstance(n, ast.Call) and isinstance(n.func, ast.Attribute) and n.func.attr in SUM_FAMILY:
+            return n.func.attr
+    return None
+
+
+def sum_family(S: Sem) -> Tuple[bool, str]:
+    prim = add_primitive(S)
+    if prim is None:
+        return False, 'cannot identify the primitive used by add'
+    alias = S.prog.class_attr_alias(S.ci, 'sum')
+    if alias is not None:
+        names = {n.attr for n in ast.walk(alias) if isinstance(n, ast.Attribute)} | {n.id for n in ast.walk(alias) if isinstance(n, ast.Name)}
+    else:
+        f = S.method('sum')
+        names = {callee_last(n) for n in own_nodes(f.node) if isinstance(n, ast.Call)}
+    ok = bool(names & SUM_FAMILY[prim])
+    return ok, f"add uses `{prim}`; sum is built from {sorted(x for x in names if x and x not in ('staticmethod', 'torch'))}; expected one of {sorted(SUM_FAMILY[prim])}"
+
+
+def check_star_at_one(prog: Program, rep: Report, rule: str) -> None:
+    n = 0
+    for S in semirings(prog):
+        where = f"{SR}:{S.name}"
+        loc = S.method('star').loc()
+        try:
+            one = S.elem(1)
+            idem = S.call('add', one, one).cls == one.cls
+            top = 'T' if S.name == 'BoolSemiring' else 'PINF'
+            so = S.call('star', one)
+            want = next(iter(one.cls)) if idem else top
+            n += 1
+            rep.ob(rule, where, f"star(one) in {S.name}", loc, so.cls == {want},
+                   f"add(one,one) {'=' if idem else '!='} one so the semiring is {'idempotent' if idem else 'not idempotent'}; star(one) = {so}, least solution of y = 1 + y is {{{want}}}"
+                   + ('' if so.cls == {want} else ' -- newton/linear would return a different value than fixed-point on weight-one cycles'))
+        except Unsupported as u:
+            rep.error(f"{rule}: {where}: {u}")
+    rep.floor(rule.split(' ')[0] + ' star instances', n, 4)
+
+
+# ------------------------------------------------------------------------------------------ einsum callbacks (C07-D1)
+def einsum_callbacks(prog: Program, S: Sem) -> Dict[str, FuncInfo]:
+    """{'mul': callback FuncInfo} -- the nested function passed as the multiply callback to compute_sum in S.einsum."""
+    f = S.method('einsum')
+    out: Dict[str, FuncInfo] = {}
+    nested = {c.name: c for c in f.children if not c.is_lambda}
+    for g in [f] + [c for c in f.children]:
+        for n in own_nodes(g.node):
+            if isinstance(n, ast.Call) and isinstance(n.func, ast.Name) and n.func.id == 'compute_sum' and len(n.args) >= 3:
+                m = n.args[2]
+                if isinstance(m, ast.Name) and m.id in nested:
+                    out['mul'] = nested[m.id]
+                a = n.args[0]
+                out.setdefault('add_names', [])  # type: ignore
+                out['add_names'].append(norm(a))  # type: ignore
+    return out
+
+
+def check_einsum_callbacks(prog: Program, rep: Report, rule: str) -> None:
+    n = 0
+    for S in semirings(prog):
+        where = f"{SR}:{S.name}.einsum"
+        f = S.method('einsum')
+        cbs = einsum_callbacks(prog, S)
+        if 'mul' not in cbs:
+            if S.name == 'BoolSemiring':
+                # Boolean einsum = real einsum of 0/1 followed by > 0
+                ok = any(isinstance(x, ast.Compare) and isinstance(x.ops[0], ast.Gt) and isinstance(x.comparators[0], ast.Constant) and x.comparators[0].value == 0 for x in own_nodes(f.node))
+                rep.ob(rule, where, 'boolean einsum = (real einsum of the 0/1 operands) > 0', f.loc(), ok, '')
+                continue
+            rep.error(f"{rule}: {where}: cannot find the multiply callback passed to compute_sum")
+            continue
+        cb = cbs['mul']
+        bad = []
+        k = 0
+        for a, b in itertools.product(S.carrier, repeat=2):
+            try:
+                it = Interp(prog, cb)
+                pa, pb = cb.positional_params()[:2]
+                _, final = it.run({pa: S.cls(a), pb: S.cls(b)})
+                got = final[pa]
+                want = S.call('mul', S.cls(a), S.cls(b))
+            except Unsupported as u:
+                rep.error(f"{rule}: {where}: {u}")
+                bad = None
+                break
+            k += 1
+            if got.cls != want.cls:
+                bad.append(f"({a},{b}): callback gives {got}, {S.name}.mul gives {want}")
+        if bad is None:
+            continue
+        n += k
+        rep.ob(rule, where, f"{cb.name}(a, b) == {S.name}.mul(a, b) on all {k} class pairs", cb.loc(), not bad,
+               '; '.join(bad[:4]) if bad else 'the in-place multiply of the einsum is the semiring product (0 x inf = 0 convention included)')
+        # the additive callbacks belong to the family of add
+        prim = add_primitive(S)
+        names = ' '.join(cbs.get('add_names', []))  # type: ignore
+        fam = {'add': 'add_in_place', 'logaddexp': 'add_in_place max_in_place', 'maximum': 'max_in_place'}.get(prim or '', '')
+        ok = bool(names) and all(x.split('.')[-1] in fam.split() for x in names.split())
+        rep.ob(rule, where, 'additive callbacks belong to the family of the semiring add', f.loc(), ok, f"add uses `{prim}`; compute_sum receives {names}")
+    rep.floor(rule.split(' ')[0] + ' callback class pairs', n, 150)
